@@ -80,7 +80,11 @@ K == fi + prof
 Bump(st) == [st EXCEPT ![Len(st)].pc = @ + 1]
 (* Bounded branching: inside a deterministic frame (second and later elements of a struct array, *)
 (* and everything nested in them) a choice point takes ONE option, picked by rotation on K.      *)
-Det == Top.det
+(* A bound on the product of choices of ONE behaviour (generated programs can put ten choice points *)
+(* in a row): after DetAfter emitted fields the remaining choice points take one option each, by   *)
+(* rotation.  Unset for the corpus (its messages are walked in full).                              *)
+DetAfter == IF "WOWM_DET_AFTER" \in DOMAIN IOEnv THEN atoi(IOEnv.WOWM_DET_AFTER) ELSE 1000000
+Det == Top.det \/ fi >= DetAfter
 Pick(n) == IF Det THEN {(K % n) + 1} ELSE 1..n
 PickLen(S) == IF Det THEN {CHOOSE x \in S : Cardinality({y \in S : y < x}) = K % Cardinality(S)} ELSE S
 Push(st, f) == Append(st, [f EXCEPT !.det = (st[Len(st)].det \/ f.det)])
@@ -155,7 +159,11 @@ FlagChoices(i, f, k) ==
     THEN LET t == Tested(i) \cap ENames(f)
              InT(nm) == nm \in t
              ts == SeqOfIdx(f, IdxFilter(f, InT, 1))
-         IN  << {} >> \o [j \in 1..Len(ts) |-> {ts[j]}] \o << t >>
+             (* every other single tested bit is accompanied by all the enumerators no condition   *)
+             (* names: they do not change the structure, but a reader that compares the whole      *)
+             (* value where the definition tests one bit takes another path                        *)
+             u == ENames(f) \ t
+         IN  << {} >> \o [j \in 1..Len(ts) |-> IF (j + k) % 2 = 0 THEN {ts[j]} ELSE {ts[j]} \cup u] \o << t >>
              \o (IF Deep THEN << ENames(f) >> \o [j \in 1..(Len(ts) - 1) |-> {ts[j], ts[j + 1]}] ELSE <<>>)
     ELSE LET c == k % 3 IN
          << CASE c = 0 -> {} [] c = 1 -> ENames(f) [] c = 2 -> {f.enums[(k % Len(f.enums)) + 1].n} >>
